@@ -35,7 +35,7 @@ try:
     man = json.load(open(f"{V}/MANIFEST.json"))
 
     def one(pid):
-        rr = sh(f"cd {V} && VERIF_EVIDENCE_DIR={scratch} ./check {pid} --tier quick --root {wt}", timeout=900)
+        rr = sh(f"cd {V} && VERIF_NO_SELFTEST=1 VERIF_EVIDENCE_DIR={scratch} ./check {pid} --tier quick --root {wt}", timeout=900)
         if rr.returncode == 1:
             return pid, sorted({l.split("rule=")[1].split()[0] for l in rr.stdout.splitlines() if "rule=" in l})
         if rr.returncode == 2:
